@@ -21,6 +21,15 @@ type Tape struct {
 	StickyP  int // percent chance to keep running the same task (strategy 1)
 	Overrun  int // draws past the end of a replayed tape
 	Marks    []int // positions in the generation stream where an operation starts
+	Named    map[string]int // positions of named draws (e.g. the crash step), for enumeration
+}
+
+// Name records that the next draw of the generation stream is the named one.
+func (t *Tape) Name(label string) {
+	if t.Named == nil {
+		t.Named = map[string]int{}
+	}
+	t.Named[label] = len(t.Rec)
 }
 
 // Mark notes that a new operation starts at the current position of the
